@@ -218,7 +218,8 @@ def run_oracle(prop, tier, rng, inputs, known):
             stats["evaluations"] += 1
             if err:
                 stats["oracle_errors"] = stats.get("oracle_errors", 0) + 1
-                if prop == "C03" and err == "timeout":
+                if prop == "C03" and err == "timeout" and len(fails) < 3 and stats.get("confirmations", 0) < 6:
+                    stats["confirmations"] = stats.get("confirmations", 0) + 1
                     failure = _confirm_timeout(payload)     # "optimize always returns": re-run alone, 150 s
             if failure is None:
                 continue
